@@ -2,7 +2,7 @@
 # multi-seed sweep of every quick check: prints one line per (check, seed) with the exit code
 cd "$(dirname "$0")/.."
 for s in ${SEEDS:-2 3 4}; do
-  for p in C01 C02 C03 C04 C05 C06 C07 C08 C09 C10 C11 C12 C13 C14 C15 C16 C17 C18 C19; do
+  for p in ${PROPS:-C01 C02 C03 C04 C05 C06 C07 C08 C09 C10 C11 C12 C13 C14 C15 C16 C17 C18 C19}; do
     t0=$(date +%s)
     out=$(VERIF_SEED=$s python3 bin/vcheck.py $p --tier ${TIER:-quick} 2>&1); rc=$?
     echo "seed=$s $p rc=$rc $(( $(date +%s) - t0 ))s $(echo "$out" | grep -c '^VIOLATION') violations; $(echo "$out" | grep '^INCONCLUSIVE' | head -1)"
